@@ -128,8 +128,9 @@ Qed.
 
 (* Race freedom of the subscriber slice, re-checked against the GO SOURCE on every run.  Gen/WQSkeleton_gen.v is
    regenerated from workqueue/queue.go by translator/lockskel before every Coq build: the accesses to
-   Queue.errorSubscribers in every method of Queue and in the error-monitor goroutine that start() spawns (pseudo-method
-   "start.func2"), with the mode of errSubScriberMux held around them.  For EVERY schedule of any number of
+   Queue.errorSubscribers in every exported method of Queue and in the goroutines the constructor starts (the dispatcher
+   "NewQueue.go1" = start(), the error monitor it spawns "NewQueue.go1.go1", the workers "NewQueue.go1.go2"; the mutex and the
+   slice are found by TYPE — sync.Mutex, []chan error — and printed under role names), with the mode of errSubScriberMux held around them.  For EVERY schedule of any number of
    instances of these methods (locks taken one by one, accesses one at a time, mutex semantics of Lib/Conc.v) no
    two of them are ever about to access the slice conflictingly, and the translator understood all of queue.go.
    (Before fix F14 the monitor ranged over the slice without the mutex: this theorem would not compile.) *)
